@@ -11,6 +11,9 @@ src = os.path.join(build.VERIF, 'cbmc', 'c16_dice.c')
 asrc = os.path.join(build.VERIF, 'cbmc', 'c16_alias.c')
 specs = [dict(title='dice-bit-exact-2^31', src=src, defs=['LIMIT=2147483648LL'], unwind=65, timeout=600, link_lib=True),
          # the probability law implied by the alias table: every vector of three multiples of 0.05 within the accepted tolerance of one, in every order
+         # uniform within [min, max] under IEEE rounding for every raw draw, bounds on a dyadic grid (multiples of 1/8 within +-16);
+         # with arbitrary double bounds CBMC and z3's FP theory gave no verdict in 300-900 s
+         dict(title='uniform-bit-exact-grid8', src=src, defs=['LIMIT=16LL', 'WITH_UNIFORM=1', 'UGRID=8', 'URANGE=16'], unwind=65, timeout=600, link_lib=True),
          dict(title='alias-law-n3-twentieths', src=asrc, defs=['NN=3', 'GRID=20'], unwind=5, timeout=900, link_lib=True)]
 if c.tier == 'thorough':
     specs += [dict(title='dice-bit-exact-2^52', src=src, defs=['LIMIT=4503599627370496LL'], unwind=65, timeout=1800, backend=('--sat-solver', 'cadical'), link_lib=True),
@@ -73,7 +76,7 @@ zfam('gamma-4-shapes-deeper', 'e_gamma', 5, SHAPE_SYM=0, tier='thorough', w=30)
 c.run_e1(fams, assumptions=['every call of cmb_random_sfc64 returns an arbitrary 64-bit value (a sound over-approximation of the stream for a support claim)',
                             'E1: parameters and arithmetic are exact reals (rounding outside); exp/log/pow are uninterpreted functions with sign/monotonicity contracts; E2: doubles bit-exact',
                             'geometric / negative binomial / exponential: only the ziggurat hot path (table look-up, about 98.9 % of the draws); paths entering cmi_random_exp_not_hot are cut', 'samplers built on the ziggurat (normal, lognormal, Rayleigh, Cauchy, exponential, Erlang, hypo-/hyperexponential, Weibull, Poisson, gamma, beta, PERT, chi-squared, F, t) and the logistic: hot paths of the ziggurat for the listed layers (low byte of the raw draw: quick 1-4 layers, thorough 65 of 253 for the one-draw samplers), rejection / redraw loops cut after max_draws raw draws per call chain (3-6), shape parameters: std_gamma any shape in [0.01, 4] for the first iteration, the others for 2-4 concrete shapes on both sides of 1 (0.125, 0.5, 1, 2.5), PERT for three concrete (min, mode, max) triples',
-                            'NOT decided here: uniform/triangular under IEEE rounding (CBMC: no verdict in 300 s), the fall-back paths of the two ziggurat samplers beyond the listed index bytes (6 quick, 21 thorough, of 256) and 4 raw draws; the generated tables are read as constants (every look-up is bounds-checked, the geometry itself is not verified), floating-point underflow / overflow in the composed samplers (exact reals)',
+                            'NOT decided here: uniform under IEEE rounding for arbitrary double bounds (decided only for bounds on a dyadic grid: multiples of 1/8 within +-16; CBMC 300 s and z3 FP 900 s gave no verdict otherwise), triangular under IEEE rounding, the fall-back paths of the two ziggurat samplers beyond the listed index bytes (6 quick, 21 thorough, of 256) and 4 raw draws; the generated tables are read as constants (every look-up is bounds-checked, the geometry itself is not verified), floating-point underflow / overflow in the composed samplers (exact reals)',
                             'a branch whose feasibility the solver leaves undecided within 10 s is followed on both sides (every assertion on it is still decided, a violation still needs a model); such paths are counted as feasibility_undecided in the evidence parts',
                             'NOT applicable: "samples follow the stated distribution ... converge": a limit statement about infinitely many draws; the one exception decided here is the law implied by an alias table (a finite exact statement): E2, IEEE doubles, three probabilities on a grid of twentieths (thorough: two on thousandths, four on tenths)'],
          bounds=['dice: all a < b within +-2^31 (thorough 2^52) and every draw; loaded dice / alias tables with 1-3 (thorough 4) symbolic probabilities summing to one within 1e-3; geometric / negative binomial at p = 1 (thorough also 0.5)'])
